@@ -81,7 +81,7 @@ def run_route(lg, route, seed=0):
         import nifty.re as jft
         kw = dict(cg_name=None, cg_kwargs=dict(L.CG_TIGHT))
         key = jax.random.PRNGKey(seed + 11)
-        N = jnp.asarray(lg.f("N"))
+        N = jnp.asarray(lg.impl("N"))
         if route.startswith("re.wf.") and route != "re.wf.samples":
             nl = ".lin." in route
             lh = L.jax_likelihood(lg, nl)
@@ -93,9 +93,20 @@ def run_route(lg, route, seed=0):
             return np.asarray(s.pos)
         lh = L.jax_likelihood(lg, False)
         if route == "re.T":
+            from nifty.re import evi
             mean = jnp.asarray(lg.np_mean())
-            cols = L.jax_T(lh, mean, (lg.m, lg.n))
-            return np.array([np.asarray(c) for c in cols]).T
+            dk = dict(cg_kwargs=dict(L.CG_TIGHT))
+            with L.jax_feed_flat(None) as info0:
+                evi.draw_linear_residual(lh, mean, key, **dk)
+            K = sum(info0["sizes"])
+            cols = []
+            for i in range(K):
+                white = np.zeros(K)
+                white[i] = 1.0
+                with L.jax_feed_flat(white):
+                    smpl, _ = evi.draw_linear_residual(lh, mean, key, **dk)
+                cols.append(np.asarray(smpl))
+            return np.array(cols).T
         if route == "re.wf.samples":
             s, _ = jft.wiener_filter_posterior(lh, key=key, n_samples=2, draw_linear_kwargs=kw, jit=False)
             from nifty.re import evi
@@ -125,7 +136,8 @@ def run_route(lg, route, seed=0):
     if route in ("cl.wfc.inverse", "cl.T.wfc"):
         if case["noise"] != "diag":
             return None
-        Nop = ift.DiagonalOperator(ift.makeField(o["tgt"], np.diag(lg.f("N")).copy()), sampling_dtype=np.float64)
+        Nop = ift.DiagonalOperator(ift.makeField(o["tgt"], np.diag(lg.impl("N")).copy()),
+                                   sampling_dtype=np.complex128 if lg.is_complex else np.float64)
         Sop = ift.DiagonalOperator(ift.makeField(o["dom"], 1. / lg.f("sinv")), sampling_dtype=np.float64)
         icc = ift.GradientNormController(tol_abs_gradnorm=1e-13, iteration_limit=400)
         if route == "cl.wfc.inverse":
@@ -133,16 +145,21 @@ def run_route(lg, route, seed=0):
             j = o["R"].adjoint(Nop.inverse(o["d"]))
             return _quiet(lambda: D(j)).asnumpy()
         curv = ift.WienerFilterCurvature(o["R"], Nop, Sop, icc, ic_s)
+
+        def draw(white):
+            with L.classic_feed_flat(white) as sizes:
+                smp = _quiet(lambda: curv.draw_sample(from_inverse=True))
+            return smp.asnumpy(), list(sizes)
+        _, sz0 = draw(None)
+        K = sum(sz0)
         cols = []
-        for which, sz in enumerate((lg.n, lg.m)):
-            for i in range(sz):
-                vecs = [np.zeros(lg.n), np.zeros(lg.m)]
-                vecs[which][i] = 1.0
-                with L.classic_feed(vecs) as calls:
-                    smp = _quiet(lambda: curv.draw_sample(from_inverse=True))
-                if len(calls) != 2:
-                    raise RuntimeError("unexpected number of white-noise draws: %r" % (calls,))
-                cols.append(smp.asnumpy())
+        for i in range(K):
+            white = np.zeros(K)
+            white[i] = 1.0
+            col, sz = draw(white)
+            if sz != sz0:
+                raise RuntimeError("white-noise requests changed between runs: %r vs %r" % (sz, sz0))
+            cols.append(col)
         return np.array(cols).T
     H = ift.StandardHamiltonian(lhc, ic_s, prior_sampling_dtype=np.float64)
     minim = ift.NewtonCG(ic_n)
@@ -169,24 +186,26 @@ def run_route(lg, route, seed=0):
         return _quiet(go)
     if route == "cl.T.kl":
         mean = ift.makeField(o["dom"], lg.np_mean())
-        cols = []
-        for which, sz in enumerate((lg.n, lg.m)):
-            for i in range(sz):
-                vecs = [np.zeros(lg.n), np.zeros(lg.m)]
-                vecs[which][i] = 1.0
 
-                def go():
-                    with L.classic_feed(vecs) as calls:
-                        kl = ift.SampledKLEnergy(mean, H, 1, None, mirror_samples=True)
-                    return kl, calls
-                kl, calls = _quiet(go)
-                if len(calls) != 2:
-                    raise RuntimeError("unexpected number of white-noise draws: %r" % (calls,))
-                smp = [s.asnumpy() for s in kl.samples.iterator()]
-                # samples are position + residual, mirrored pair
-                cols.append(smp[0] - mean.asnumpy())
-                if np.abs((smp[1] - mean.asnumpy()) + cols[-1]).max() > 1e-12:
-                    raise RuntimeError("mirrored sample is not the negative")
+        def draw(white):
+            def go():
+                with L.classic_feed_flat(white) as sizes:
+                    kl = ift.SampledKLEnergy(mean, H, 1, None, mirror_samples=True)
+                return kl, list(sizes)
+            return _quiet(go)
+        _, sz0 = draw(None)
+        K = sum(sz0)
+        cols = []
+        for i in range(K):
+            white = np.zeros(K)
+            white[i] = 1.0
+            kl, sz = draw(white)
+            if sz != sz0:
+                raise RuntimeError("white-noise requests changed between runs: %r vs %r" % (sz, sz0))
+            smp = [s_.asnumpy() for s_ in kl.samples.iterator()]
+            cols.append(smp[0] - mean.asnumpy())
+            if np.abs((smp[1] - mean.asnumpy()) + cols[-1]).max() > 1e-12:
+                raise RuntimeError("mirrored sample is not the negative")
         return np.array(cols).T
     raise ValueError(route)
 
@@ -307,7 +326,8 @@ class C20(C.Check):
         for i in range(ncheap):
             rk = kinds[i % len(kinds)] if i < 2 * len(kinds) else None
             noise = "dense" if i % 4 == 3 else None
-            cases.append(L.gen_lg_case(rng, i, rkind=rk, noise=noise))
+            # every third model has a complex-valued response and complex data (real signal)
+            cases.append(L.gen_lg_case(rng, i, rkind=rk, noise=noise, cplx=(i % 3 == 1)))
         return cases, nokl
 
     def correspondence(self, ctx, res):
@@ -388,7 +408,7 @@ class C20(C.Check):
             rng = ctx.rng(2020)
             routes = [h[1] for h in hints] or (JAX_CHEAP + CL_ROUTES)
             for i in range(40 * budget):
-                case = L.gen_lg_case(rng, 1000 + i)
+                case = L.gen_lg_case(rng, 1000 + i, cplx=(i % 2 == 1))
                 lg = L.LG(case)
                 for route in sorted(set(routes)):
                     out = safe_route(lg, route, seed=ctx.seed)
